@@ -252,6 +252,43 @@ def run(chk, R, tier, seed):
                               "unknown-code-trace")
         cases.append(Case(steps, judge))
 
+    # ---- near misses of table codes, tried while the real code is NOT
+    # registered yet (in a fresh interpreter): other case, blanks
+    fresh_cases = []
+    for code in rng.sample(sorted(table), 25 if tier == "quick" else 150):
+        near = rng.choice([code.lower(), code.capitalize(), " " + code,
+                           code + " ", code[:2] + code[2].lower()])
+        steps = [{"k": "r", "e": reg(near)},
+                 {"k": "u1", "e": U(near)},
+                 {"k": "u2", "e": U(code)},
+                 {"k": "r2", "e": reg(code)},
+                 {"k": "r3", "e": reg(near)}]
+
+        def judge(obs, rec, case, code=code, near=near, steps=steps):
+            if obs is None or "r" not in obs:
+                chk.inconclusive_because("near-miss code case not observed")
+                return
+            chk.case(("near-miss code", near))
+            chk.count("near misses of table codes rejected")
+            bad = []
+            for k in ("r", "r3"):
+                if not is_exc(obs.get(k), "ValueError"):
+                    bad.append("register_currency(%r) gives %s" %
+                               (near, brief(obs.get(k))))
+            for k, what in (("u1", near), ("u2", code)):
+                if not is_exc(obs.get(k), "ValueError"):
+                    bad.append("Unit(%r) is known after the rejected "
+                               "registration of %r" % (what, near))
+            r2 = obs.get("r2", {})
+            if r2.get("k") != "U" or r2.get("sym") != code:
+                bad.append("register_currency(%r) afterwards gives %s" %
+                           (code, brief(r2)))
+            if bad:
+                chk.violation("; ".join(bad[:3]),
+                              dict(obs=obs, steps=steps), "unknown-code")
+        fresh_cases.append(Case(steps, judge, isolate=True))
+    chk.require("near misses of table codes rejected")
+
     # ---- user-declared currencies
     fracs = [F(1, 20), F(1, 4), F(1, 2), F(1, 1000), F(1, 8), F(1, 5),
              F(1, 100), F(1, 10 ** 6)]
@@ -322,3 +359,4 @@ def run(chk, R, tier, seed):
         cases.append(Case(steps, judge))
     rng.shuffle(cases)
     run_cases(chk, R, cases, per_program=400, prelude=prelude)
+    run_cases(chk, R, fresh_cases)
